@@ -96,3 +96,88 @@ _add(PropertySpec(
 # metarize establishes the table invariant that C01 / C02 rely on
 SPECS['C01'].functions += ['ampycloud.data.CeiloChunk.metarize', 'ampycloud.data.CeiloChunk._calculate_cloud_amount']
 SPECS['C02'].functions += ['ampycloud.data.CeiloChunk.metarize']
+
+
+# ---------------------------------------------------------------------------------------------
+# properties decided (in their deductive part) by the frame back end
+# ---------------------------------------------------------------------------------------------
+from . import frames_spec as _fs      # noqa: E402
+
+A_FRAME = ('A-FRAME: effect summaries are a may-analysis (flow-sensitive on local names only, one level of field sensitivity below self, '
+           'allocation-site abstraction of fresh objects); library functions are effect-free on the tracked locations unless listed in '
+           'pyvc/frames.py (A-LIBPURE); reflection limited to getattr/setattr on self with literal / parametric names')
+A_DET = 'A-DET: for equal inputs numpy / pandas / scikit-learn / statsmodels compute bit-identical results (thread counts fixed); bounded check only'
+A_LIBTS = 'A-LIBTS: third-party libraries keep no shared mutable state relevant to results when called on disjoint data; CPython container operations are atomic'
+
+
+def _bounded(modname):
+    def f(run):
+        import importlib
+        return importlib.import_module(f'bounded.{modname}').bounded(run)
+    f.__name__ = f'bounded_{modname}'
+    return f
+
+
+_add(PropertySpec(
+    'C11', 'proof',
+    extras=[_fs.c11], bounded=_bounded('c11'),
+    explanation=('Frame obligations over inferred effect summaries of the real code (modular: callee summaries at call sites): neither the '
+                 'constructor, run(), metar(), any stage, metar_msg(), the input checker nor the MSA clean-up writes the caller\'s frame, the '
+                 'caller\'s dictionary or a module-level object; adjust_nested_dict never writes its second argument; the value returned by '
+                 '_setup_prms shares no object with the global parameters (deep copy), so neither direction of the snapshot claim can fail; '
+                 '_data is a private copy; no method other than the constructor writes the parameter snapshot.  A bounded native run '
+                 '(labelled B) accompanies the frames and supplies the failing input when an obligation is refuted.'),
+    assumptions=[A_FRAME, 'noted, not a violation: leaf objects of the caller\'s dictionary are aliased into chunk.prms; ampycloud never writes them (obligation prms_snapshot_not_written)'],
+))
+
+_add(PropertySpec(
+    'C12', 'other',
+    extras=[_fs.c12], bounded=_bounded('c12'),
+    explanation=('PROVED (F): dynamic.AMPYCLOUD_PRMS is read directly only by _setup_prms, set_prms, reset_prms and the plotting-style '
+                 'code; no processing step reaches it even through callees; the constructor takes its snapshot through _setup_prms; '
+                 'set_prms merges into the global through the same adjust_nested_dict; reset_prms rebinds from a fresh read of the '
+                 'packaged YAML and stores nothing but fresh defaults.  BOUNDED (B): that the three routes give identical results, that '
+                 'unknown keys warn without adding keys, that only named keys change and that reset restores the defaults are checked '
+                 'natively on a scene grammar x nested parameter assignments (adjust_nested_dict is not yet under a full-mode contract).'),
+    assumptions=[A_FRAME, 'ruamel.yaml load returns the nested dict the file denotes'],
+    not_decided=['functional correctness of adjust_nested_dict for all nested dictionaries (bounded only)'],
+))
+
+_add(PropertySpec(
+    'C13', 'other',
+    extras=[_fs.c13], bounded=_bounded('c13'),
+    explanation=('PROVED (F), the premises of non-interference: no function on the processing path writes a module-level object or an '
+                 'argument it does not own; the only module-level objects read are two never-written constants and (in _setup_prms only) the '
+                 'global parameters; what the constructor stores in the instance is fresh; helpers have no mutable defaults.  From these, '
+                 'stage calls on distinct chunks have disjoint footprints, so any interleaving of stage calls commutes with the isolated '
+                 'runs.  NOT DECIDED: pre-emption inside a stage (needs A-LIBTS).  BOUNDED (B): exhaustive stage interleavings of two chunks, '
+                 'sampled ones for three, and threads with a 10 microsecond switch interval.'),
+    assumptions=[A_FRAME, A_LIBTS, A_DET],
+    not_decided=['thread schedules inside third-party C code and at bytecode level (no model of schedules in this technique family)'],
+))
+
+_add(PropertySpec(
+    'C09', 'other',
+    functions=['ampycloud.utils.utils.tmp_seed'],
+    extras=[_fs.c09], bounded=_bounded('c09'),
+    explanation=('PROVED (P): tmp_seed is symbolically executed from its real AST (generator with try/finally; the with-body may change the '
+                 'ghost generator state arbitrarily and may raise): on the normal and on the exceptional exit the global generator state '
+                 'equals the state at entry.  PROVED (F): no function on the processing path reads or writes the global generator, the clock '
+                 '(run() reads it into the log only) or hash()/id(); canonical_demo_data touches the generator only under tmp_seed; every '
+                 'GaussianMixture is built with random_state = the integer parameter random_seed; no iteration over sets.  NOT DECIDED: '
+                 'bit-identical output of the numerical libraries across processes (A-DET), checked by digests in a bounded run.'),
+    assumptions=[A_FRAME, A_DET, 'np.random.get_state / seed / set_state act on the global generator as their documentation says (ghost model)'],
+    not_decided=['bit-reproducibility of scikit-learn / numpy / pandas across processes, hash seeds and BLAS builds'],
+))
+
+_add(PropertySpec(
+    'C20', 'other',
+    extras=[_fs.c20], bounded=_bounded('c20'),
+    explanation=('PROVED (F): no plotting function writes the chunk, a module-level object or the global generator; every chunk method the '
+                 'plots call is read-only; rcParams are only changed inside matplotlib style contexts, which restore them; the writes of '
+                 'diagnostic() are bounded by {open figures, files, log, warnings}.  NOT DECIDED: that matplotlib raises nothing for every '
+                 'data shape, that no figure stays open and that exactly the requested files are written: checked on a scene grammar x upto '
+                 'x show_ceilos x formats (B).'),
+    assumptions=[A_FRAME, 'plt.style.context restores rcParams on every exit'],
+    not_decided=['totality of matplotlib drawing calls; index safety of colour / marker subscripts (not yet under a full-mode contract)'],
+))
